@@ -371,15 +371,79 @@ func ruleCallbackScratch(c *core.Ctx, rule string) {
 func init() {
 	register(&Property{
 		ID:    "C12",
-		Rules: []string{"C12-R1", "C12-R2", "C12-R3", "C12-R4"},
+		Rules: []string{"C12-R1", "C12-R2", "C12-R3", "C12-R4", "C12-R5", "C10-R3"},
 		Explain: "Decides the absence of state that could leak from one day into the next: C12-R1 every Reporter implementation is streaming (Process writes to its sink and to nothing persistent; Flush adds no content) or accumulating (Process updates its own state and writes nothing), never both, and no Process writes a package-level variable or the shared recipe book; " +
 			"C12-R2 the per-record callback that feeds reporters writes every captured variable before reading it within one invocation; " +
-			"C12-R3 no pointer to a variable that outlives one record is stored into a record by the parser; C12-R4 every heading yields exactly one delivered record whatever follows it.",
+			"C12-R3 no pointer to a variable that outlives one record is stored into a record by the parser; C12-R4 every heading yields exactly one delivered record whatever follows it; " +
+			"C12-R5 a reporter's sink is the configured output, a bufio.Writer or a csv.Writer over it — not a writer that holds rows back and re-lays them out when flushed (text/tabwriter), which would make earlier days' rows depend on later days; " +
+			"C10-R3 (shared) no per-record callback stops the walk without an error, so a day in the middle cannot make the later days vanish.",
 		NotDecided: "element-wise sum of the parts for period reports (float addition order), equality of concatenated outputs as byte strings",
 		Run: func(c *core.Ctx) {
 			ruleReporterDiscipline(c, "C12-R1")
+			ruleReporterSinks(c, "C12-R5")
+			ruleCallbackConsumers(c, map[string]bool{"C10-R3": true})
 			ruleCallbackScratch(c, "C12-R2")
 			analyseParserLoop(c, map[string]bool{"C12-R3": true, "C12-R4": true})
 		},
 	})
+}
+
+// ruleReporterSinks is C12-R5: the fields a Reporter implementation writes its
+// rows to have a pass-through writer type.
+func ruleReporterSinks(c *core.Ctx, rule string) {
+	okTypes := map[string]string{
+		"*bufio.Writer":        "buffers bytes, never re-lays them out",
+		"io.Writer":            "the configured output itself",
+		"*encoding/csv.Writer": "writes each record as it is given",
+		"*os.File":             "unbuffered file",
+	}
+	n := 0
+	for _, t := range reporterImpls(c.P) {
+		st, ok := t.Underlying().(*types.Struct)
+		if !ok {
+			continue
+		}
+		for i := 0; i < st.NumFields(); i++ {
+			ft := st.Field(i).Type()
+			if !isWriterType(ft) {
+				continue
+			}
+			n++
+			name := t.Obj().Pkg().Name() + "." + t.Obj().Name()
+			pos := c.P.Pos(st.Field(i).Pos())
+			if why, ok := okTypes[ft.String()]; ok {
+				c.Discharge(rule, name, "sink "+st.Field(i).Name(), pos, ft.String()+": "+why)
+			} else {
+				c.Violate(rule, name, "sink "+st.Field(i).Name(), pos, "the reporter writes its rows to a "+ft.String()+": a writer that keeps rows until it is flushed and lays them out together makes what is printed for one day depend on the other days", nil)
+			}
+		}
+	}
+	if n == 0 {
+		c.Note(rule + ": no reporter keeps a writer in a field")
+	}
+}
+
+// isWriterType: t has a method Write([]byte) (int, error) or is encoding/csv's Writer.
+func isWriterType(t types.Type) bool {
+	if strings.HasSuffix(t.String(), "encoding/csv.Writer") {
+		return true
+	}
+	for _, tt := range []types.Type{t, types.NewPointer(t)} {
+		ms := types.NewMethodSet(tt)
+		for i := 0; i < ms.Len(); i++ {
+			m := ms.At(i).Obj()
+			if m.Name() != "Write" {
+				continue
+			}
+			sig, ok := m.Type().(*types.Signature)
+			if ok && sig.Params().Len() == 1 && sig.Results().Len() == 2 {
+				if sl, ok := sig.Params().At(0).Type().(*types.Slice); ok {
+					if b, ok := sl.Elem().(*types.Basic); ok && b.Kind() == types.Byte {
+						return true
+					}
+				}
+			}
+		}
+	}
+	return false
 }
